@@ -156,6 +156,16 @@ def auto_discharge(ctx, s):
         return ("os-failure", "std::thread::spawn panics only if the OS cannot create a thread; not input dependent")
     if kind == "std:drain" and ((t.get("arg_tys") or ["", ""]) + [""])[1] == "std::ops::RangeFull":
         return ("std-contract", "drain(..) over the full range cannot be out of bounds")
+    if kind == "std:repeat" and t.get("args") and len(t["args"]) == 2:
+        # `" ".repeat(n)` of a constant one-byte string with n bounded by the length of a string that already
+        # exists (n = x.len(), or an index / a difference of indices of one): the product cannot overflow
+        unit = util.const_val(ctx, b, t["args"][0])
+        nl = _labels(ctx, b, t["args"][1])
+        ncalls = {l[1] for l in nl if l[0] == "call"}
+        if isinstance(unit, str) and len(unit.encode()) == 1 and ncalls and not any(l[0] == "const" and str(l[1]).isdigit() and int(l[1]) > 4096 for l in nl) \
+                and all(re.search(r"<impl str>::(len|find|rfind)$|string::String::len$|regex::Match(::<'h>)?::(start|end|len)$|Deref>?::deref$|Iterator>?::next$|<impl \[T\]>::iter$|IntoIterator>?::into_iter$", c) for c in ncalls) \
+                and any(re.search(r"::len$|::find$|::rfind$|::start$|::end$", c) for c in ncalls):
+            return ("std-contract", "a one-byte string repeated at most len(an existing string) times cannot overflow the capacity")
     if kind == "index-json":
         return ("std-contract", "Index<&str> / Index<usize> for serde_json::Value returns Null for a missing key; it does not panic")
     if kind in ("index-str", "index-slice") and t.get("args") and len(t["args"]) > 1:
